@@ -199,7 +199,6 @@ impl<'input> Tokenizer<'input> {
                         0 => {
                             let idx2 = idx1 + 1;
                             let data = &self.text[idx0..idx2];
-                            self.bump();
                             return Ok((idx0, ShebangAttribute(data), idx2));
                         }
                         n if n < 0 => return error(UnrecognizedToken, idx0),
